@@ -19,12 +19,12 @@ SUPPLIES = [0.0, 0.0, 1.0, 2.0, 3.0, 8.0, 10.0, 0.1, 1e-100, 1e-9, 1e9, 1e100, 7
 DEMANDS = [0.0, 1.0, 2.0, 3.0, 10.0, 0.1, 0.3, 1e-100, 1e-9, 1e9, 1e100, 7.0, 100.0, 1, 10, 0]
 
 
-def gen_child(rng, mode):
+def gen_child(rng, mode, supplies=SUPPLIES):
     if mode == "zero":
         return {"supply": 0.0, "utilisation": 0.0, "allocation": 0.0}
     if mode == "equal":
         return {"supply": 4.0, "utilisation": 0.5, "allocation": 0.5}
-    return {"supply": rng.choice(SUPPLIES), "utilisation": rng.choice(FRACS), "allocation": rng.choice(FRACS)}
+    return {"supply": rng.choice(supplies), "utilisation": rng.choice(FRACS), "allocation": rng.choice(FRACS)}
 
 
 def gen(seed, tier):
@@ -32,19 +32,28 @@ def gen(seed, tier):
     kind = rng.choice(["uniform", "supply", "utilisation", "allocation"])
     mode = rng.choice(["random", "random", "random", "zero", "equal", "single"])
     n = rng.randint(0, 8)
-    children = [gen_child(rng, mode if mode != "single" else "zero") for _ in range(n)]
+    supplies, demands = SUPPLIES, DEMANDS
+    if kind == "supply" and rng.random() < 0.1:
+        # opposite extremes: a huge demand over tiny weights, or a tiny demand over huge weights.
+        # Every product and quotient the documented formula (D * weight / total weight) needs
+        # stays inside the double range, so overflow / underflow is never the input's fault.
+        if rng.random() < 0.5:
+            supplies, demands = [1e-200, 2e-200, 3e-200, 0.0], DEMANDS + [1e200, 3e199, 1e200]
+        else:
+            supplies, demands = [1e200, 2e200, 3e200, 0.0], DEMANDS + [1e-200, 3e-199, 1e-200]
+    children = [gen_child(rng, mode if mode != "single" else "zero", supplies) for _ in range(n)]
     if mode == "single" and children:
-        children[rng.randrange(n)] = gen_child(rng, "random")
+        children[rng.randrange(n)] = gen_child(rng, "random", supplies)
     ops = []
     for _ in range(rng.randint(1, 10) if rng.random() < 0.8 else rng.randint(11, 40)):
         k = rng.choice(["write", "write", "write", "state", "state", "add", "remove", "read"])
         if k == "write":
-            ops.append(["write", rng.choice(DEMANDS)])
+            ops.append(["write", rng.choice(demands)])
         elif k == "state":
             ops.append(["state", rng.randrange(9), rng.choice(["supply", "utilisation", "allocation"]), None])
-            ops[-1][3] = rng.choice(SUPPLIES) if ops[-1][2] == "supply" else rng.choice(FRACS)
+            ops[-1][3] = rng.choice(supplies) if ops[-1][2] == "supply" else rng.choice(FRACS)
         elif k == "add":
-            ops.append(["add", gen_child(rng, rng.choice(["random", "zero"]))])
+            ops.append(["add", gen_child(rng, rng.choice(["random", "zero"]), supplies)])
         elif k == "remove":
             ops.append(["remove", rng.randrange(9)])
         else:
